@@ -1,0 +1,32 @@
+//go:build verif
+
+package capacity
+
+import (
+	"volcano.sh/volcano/pkg/scheduler/api"
+	"volcano.sh/volcano/pkg/scheduler/framework"
+)
+
+// VerifHier is a read-only copy of the hierarchy fields of one per-queue record.
+type VerifHier struct {
+	// Ancestors as stored by updateAncestors: root first, the parent last.
+	Ancestors []api.QueueID
+	// Children is len(attr.children); a leaf queue has 0.
+	Children int
+}
+
+// VerifHierarchy copies, for every per-queue record the plugin currently holds,
+// the ancestor list and the number of children (what isLeafQueue and
+// checkQueueAllocatableHierarchically read).  p must be a capacity plugin
+// (e.g. the one returned by VerifNew).
+func VerifHierarchy(p framework.Plugin) map[api.QueueID]VerifHier {
+	cp := p.(*capacityPlugin)
+	out := map[api.QueueID]VerifHier{}
+	for id, a := range cp.queueOpts {
+		out[id] = VerifHier{
+			Ancestors: append([]api.QueueID(nil), a.ancestors...),
+			Children:  len(a.children),
+		}
+	}
+	return out
+}
